@@ -499,6 +499,7 @@ def zoo(tier='quick'):
     Z = []
     # --- single zone, one country: every government x household x firm variant
     Z.append(single('sim'))
+    Z[-1].features.add('solve-compare')
     Z.append(single('simex', hh='hhexp'))
     Z.append(single('sim_caps_margin', caps=True, firm='fm1'))
     Z.append(single('sim_margin', firm='fm1'))
@@ -628,6 +629,7 @@ def zoo(tier='quick'):
         sec.AddVariable('DEM_%s_%s' % (c['AA'].Code, c['AA.LAB'].Code), 'wish list (own currency)', '1.0')
         return sec
     p.decl('BB.WISH', make_wish, needs=('BB', 'AA.GOOD', 'AA.LAB'), group='BB')
+    p.meta['wishes'] = [('BB.WISH', 'AA.GOOD'), ('BB.WISH', 'AA.LAB')]        # (sector outside the zone, market it names)
     Z.append(p)
     # the same flow (source, amount variable, target) registered twice - two instalments per period - across zones and inside one country
     Z.append(two_zone('xz_gift_twice', {}, {}, [G('AA.HH', 'BB.HH'), G('AA.HH', 'BB.HH'), G('BB.HH', 'AA.HH', name='BACK'), G('AA.HH', 'BB.HH')]))
@@ -690,6 +692,23 @@ def zoo(tier='quick'):
     p.features.add('mm')
     Z.append(p)
     # a variable whose NAME contains the word the Model uses to mark exogenous definitions
+    # a chain of constants across sectors, one of them zero: V = g(W), W = f(Z), Z = 0.0 - with a lag of V feeding the dynamics (what the solver
+    # makes of the k=0 values must not depend on the order the sectors were declared in)
+    p = single('sim_constant_chain_across_sectors')
+    p.decl('CA.CB', lambda c: Sector(c['CA'], c.nm('CB'), has_F=False), group='CA')
+    p.decl('CA.BANK', lambda c: Sector(c['CA'], c.nm('BANK'), has_F=False), group='CA')
+
+    def chain_post(c):
+        c['CA.CB'].AddVariable('POLICY', 'policy rate', '0.0')
+        c['CA.BANK'].AddVariable('LOANRATE', 'loan rate', '1.5*' + c['CA.CB'].GetVariableName('POLICY'))
+        hh = c['CA.HH']
+        hh.AddVariable('HURDLE', 'hurdle rate', c['CA.BANK'].GetVariableName('LOANRATE') + ' + 0.05')
+        hh.AddVariable('LAG_HURDLE', 'last period hurdle rate', 'HURDLE(k-1)')
+        hh.AddVariable('SPREAD', 'uses the lag', 'LAG_HURDLE*LAG_F + 2*LAG_HURDLE')
+        c.model.AddInitialCondition(hh.ID, 'F', 80.)
+    p.post(chain_post)
+    p.features.add('solve-compare')
+    Z.append(p)
     # a sector whose CODE starts with the marker word (every one of its variables does, then)
     p = single('sim_sector_code_starts_with_exogenous')
     p.rename = {'HH': 'EXOGENOUS_HH', 'BUS': 'EXOGENOUSBUS'}
